@@ -855,6 +855,8 @@ func enumerate(ctx *seq.Ctx) {
 	enumerateOrchestrated(ctx)
 	enumerateReal(ctx)
 	ctx.Note(fmt.Sprintf("pool-reuse/worker-pid-%d", os.Getpid()), fmt.Sprintf("%d records processed in sequences, %d reused *LogRecord, %d reused backing buffers, %d cases with reuse below the pool model's expectation", poolStats.records, poolStats.recHits, poolStats.bufHits, poolStats.belowExpectation))
+	ctx.Note(fmt.Sprintf("orchestrated/worker-pid-%d", os.Getpid()), fmt.Sprintf("%d cases through the real orchestrators with the harness's stage: %d lines, %d pipelines, %d chunks (%d cases with more than one chunk of one output of one pipeline), %d reused *LogRecord, %d reused backing buffers; %d cases through StartOrchestrator (shipped worker goroutine and hybrid buffer): %d chunks, %d of them read back from the queue directories, %d cases with more than one chunk of an output",
+		ostats.cases, ostats.records, ostats.pipelines, ostats.chunks, ostats.multiChunkCases, ostats.recHits, ostats.bufHits, rstats.cases, rstats.chunks, rstats.diskChunks, rstats.multiChunkCases))
 }
 
 var logCap = &hutil.LogCapture{}
@@ -879,20 +881,30 @@ func main() {
 		seq.Main(&seq.Config{
 			Property: "C12",
 			Level:    "exploration",
-			Rule: "all sequences with repetition of length <= 3 (quick) / <= 4 (thorough) over a menu of 14 record shapes (short, pooled 1500 B, bare, full extraction, escaped, multi-line, truncate trigger, error/warn for mapValue, redactEmail, 100% drop, over-limit message, pooled 1900 B + truncate, missing timestamp) " +
-				"x output sets {fluentd, fluentd+fluentd, fluentd+datadog, datadog} x feeding modes {one connection flush-per-record, one connection single flush, two connections alternating (thorough: + two connections single flush)} on one fresh long-lived pipeline behind the real parser sink; " +
+			Rule: "PART 1 (stage directly behind the parser sink): all sequences with repetition of length <= 3 (quick) / <= 4 (thorough) over a menu of 14 record shapes (short, pooled 1500 B, bare, full extraction, escaped, multi-line, truncate trigger, error/warn for mapValue, redactEmail, 100% drop, over-limit message, pooled 1900 B + truncate, missing timestamp) " +
+				"x output sets {fluentd, fluentd+fluentd, fluentd+datadog, datadog} x feeding modes {one connection flush-per-record, one connection single flush, two connections alternating (thorough: + two connections single flush)} on one fresh long-lived pipeline behind the real parser sink; plus all sequences of length 2..4 over 5 pooled/short shapes x every placement of flush pauses; " +
 				"each record's decoded output (all fields incl. nested environment, tag, exact timestamp) is compared per output with the same record processed alone on a fresh pipeline; plus per shape: identically configured outputs agree, and an output gives the same record alone or next to another output. " +
-				"non-trivial = sequences of length >= 2 and the across-outputs cases; every case also asserts that released records/backing buffers were handed out again (pointer identity)",
+				"PART 2 (the REAL orchestrators obykeyset / osingleton between the real parser sink and the stage; widened input stage: visible multi-part addFields, extract, mapValue, truncate, replace, redactEmail, unescape and a 100% drop among the input extractions): every ordered pair with repetition and every single line over a menu of 29 lines (25 record shapes: two distinct shapes for every stateful path, three pooled shapes of one size class two of which are the first of their key set, input-stage drop short and pooled; 4 malformed lines short and pooled) " +
+				"x orchestration {byKeySet keys [app] tag test.$app, byKeySet keys [app] tag $app, singleton; thorough: + byKeySet keys [app,host]} x output sets {fluentd Forward, fluentd+datadog, datadog, fluentd CompressedPackedForward; thorough: + fluentd+fluentd, compressed+datadog} " +
+				"x schedules {flush per line with the stage keeping up / lagging one batch behind / orchestrator sink holding everything until close, single flush, two connections alternating keeping up / lagging; chunks cut after every batch or only at the end; thorough: + 3 more}; triples over a reduced menu of 10 lines (quick; thorough: all triples of the full menu and every placement of flush pauses x stage runs x cut policy x {1,2} connections over the reduced menu). " +
+				"Per case: every chunk of every pipeline is kept as handed out and decoded only at the end (a queued chunk must not change); records are assigned to lines by the PID field; each record equals the record alone (differential), its tag and pipeline ID are the documented expansion of its OWN key values (absolute), the pipeline's tag / ID strings read at the end as at creation, a record does not change while it waits in the orchestrator, no *LogRecord is handed over twice, the batch slice is overwritten after Accept returns, the line buffer is overwritten after every call; every per-record counter series (labels included) is the sum of the series of the records alone and every orchestration key label is a key value of a record of the sequence. " +
+				"PART 3 (Config.StartOrchestrator: shipped LogProcessingWorker goroutine, PrepareSequentialPipeline, hybrid buffer; only the consumer is the harness's): every ordered pair of the 29 lines x {byKeySet+fluentd+datadog, singleton+fluentd+datadog, byKeySet($app)+compressed, singleton+compressed} x {2 ms flush interval with pauses, 1 h flush interval without pauses} (thorough: more combinations, two connections), same oracle, chunks taken from the consumer and from the queue directories. " +
+				"non-trivial = sequences of length >= 2, the across-outputs cases and every case of parts 2 and 3; parts 1 and 2 also observe (pointer identity) that released records/backing buffers were handed out again",
 			Assumptions: []string{
-				"the stage behind the real parser sink repeats LogProcessingWorker.onInput (select metric key set, transforms, per output serialize+Release+WriteStream) synchronously; chunks are cut at the end of the sequence",
+				"the stage behind the real parser sink (part 1) / behind the real orchestrator (part 2) repeats LogProcessingWorker.onInput (select metric key set, transforms, per output serialize+Release+WriteStream) synchronously; part 3 runs the shipped worker instead",
 				"GOMAXPROCS(1) and GC disabled during a case make sync.Pool reuse deterministic; reuse is verified per case by pointer identity, not assumed",
 				"the configuration file is parsed anew for every pipeline, so configuration strings are never shared between the long-lived and the fresh pipelines",
 				"the timestamp of the 'badtime' shape is the receive time and is not compared; defs.InputLogMaxMessageBytes scaled to 4096",
 				"two outputs with the same configuration must deliver identical records, and an output's record must not depend on which other outputs exist (outputs are documented as independent serializations of the same record)",
+				"part 2: the pipeline starter handed to obykeyset.NewOrchestrator / osingleton.NewOrchestrator builds what obase.PrepareSequentialPipeline builds, without bufferer, consumer and goroutine; the two constructors are called with the arguments Config.StartOrchestrator gives them (no recovery of queue directories: C06); the harness takes the batches out of the pipeline channels itself (default capacity 1): 'keeping up' = after every flush pause, 'lagging' = only when the channel must take the next batch, or at the end",
+				"part 2: defs.IntermediateFlushInterval is 0 (every flush pause forwards the orchestrator sink's buffers) or 1 h ('hold'); chunks are cut by FlushBuffer after a batch (what onTick does) or at the end (onStop)",
+				"the PID field of line i is 4200+i (fixed width) and is left out of the differential comparison; reference values: app after `extractTail /*` is the part before the slash, host of app=trunc after `replace` is HOST-<n>, pipeline ID of one key = the key value, of two keys = 'a,b' (config_sample.yml: [app, level] => sshd,info), singleton: empty ID and the static tag",
+				"metrics: only the per-record counter families (passed/dropped/labelled records and bytes, serialized bytes) are compared additively; chunk counters depend on where chunks are cut and belong to C19",
+				"part 3: the schedule is given by real time and not controlled; the verdict does not depend on it. defs.BufferMaxNumChunksInQueue scaled to 64 (channel capacity only). Mutations that need two goroutines inside one critical section at the same time (a torn Release, scratch memory shared by two connection goroutines) are out of reach of this sequential harness",
 			},
 			Enumerate:        enumerate,
-			QuickDeadline:    3 * time.Minute,
-			ThoroughDeadline: 40 * time.Minute,
+			QuickDeadline:    20 * time.Minute, // a safety net: machine load must not silently cut coverage
+			ThoroughDeadline: 45 * time.Minute,
 		})
 	}
 }
